@@ -36,7 +36,8 @@ structure St where
   c03 : Bool := false
   kind : ShapeKind := .bds
   opn : Bool := false                  -- the domain stores open bounds
-  slots : Array (Option RefPoly) := Array.replicate 8 none
+  slots : Array (Option RefPoly) := Array.replicate 8 none   -- tightest reading since the last mutation
+  cur : Array (Option RefPoly) := Array.replicate 8 none     -- latest reading (C03: may be weaker)
   pending : Option Pending := none
   lastOp : String := "?"
   nOk : Nat := 0
@@ -47,7 +48,10 @@ abbrev M := StateT St IO
 
 def getSlot (i : Nat) : M (Option RefPoly) := do return (← get).slots.getD i none
 def setSlot (i : Nat) (p : Option RefPoly) : M Unit :=
-  modify fun s => { s with slots := s.slots.setIfInBounds i p }
+  modify fun s => { s with slots := s.slots.setIfInBounds i p, cur := s.cur.setIfInBounds i p }
+def getCur (i : Nat) : M (Option RefPoly) := do return (← get).cur.getD i none
+def setCur (i : Nat) (p : Option RefPoly) : M Unit :=
+  modify fun s => { s with cur := s.cur.setIfInBounds i p }
 
 def ok (ln : Nat) : M Unit := do
   modify fun s => { s with nOk := s.nOk + 1 }
@@ -267,7 +271,7 @@ def processLine (ln : Nat) (line : String) : M Unit := do
   match ts with
   | "hist" :: _ :: _ :: kind :: _ :: opn :: _ =>
     let k := if kind == "box" then ShapeKind.box else if kind == "bds" then .bds else .oct
-    modify fun s => { s with slots := Array.replicate 8 none, pending := none, kind := k, opn := opn == "1" }
+    modify fun s => { s with slots := Array.replicate 8 none, cur := Array.replicate 8 none, pending := none, kind := k, opn := opn == "1" }
   | "new" :: s :: n :: how :: rest =>
     let e := applyNew (tokNat n) how rest
     let nm : String := "new:" ++ how
@@ -275,10 +279,14 @@ def processLine (ln : Nat) (line : String) : M Unit := do
                           pieces := e.pieces, cls := e.cls, before := none, modelled := e.modelled }
     modify fun st => { st with pending := some pd, lastOp := nm }
   | ["copy", d, s] =>
+    let c ← getCur (tokNat s)
     setSlot (tokNat d) (← getSlot (tokNat s))
+    setCur (tokNat d) c
   | ["swap", a, b] =>
     let pa ← getSlot (tokNat a); let pb ← getSlot (tokNat b)
+    let ca ← getCur (tokNat a); let cb ← getCur (tokNat b)
     setSlot (tokNat a) pb; setSlot (tokNat b) pa
+    setCur (tokNat a) cb; setCur (tokNat b) ca
   | "arg" :: s :: n :: _ :: rest =>
     let nn := tokNat n
     let cs := (parseCS nn rest).1
@@ -290,7 +298,9 @@ def processLine (ln : Nat) (line : String) : M Unit := do
       else if c03 then
         -- every reading of an object contains its internal set; for inexact T a later reading (reduced form)
         -- may be weaker than an earlier one: keep the tightest reading as the argument
-        if subsetB nn p.cs cs then ok ln
+        if subsetB nn p.cs cs then
+          ok ln
+          setCur (tokNat s) (some (mk nn cs))
         else
           bad ln "history arg: the reported set lost points without a mutator"
           setSlot (tokNat s) (some (mk nn cs))
@@ -302,7 +312,9 @@ def processLine (ln : Nat) (line : String) : M Unit := do
     let si := tokNat s
     match ← getSlot si with
     | some p =>
-      let e := applyOp K st.opn p name args (fun i => st.slots.getD i none)
+      let lookup (i : Nat) : Option RefPoly :=
+        if c03 && name == "diff" then st.cur.getD i none else st.slots.getD i none
+      let e := applyOp K st.opn p name args lookup
       let oth := match args with
         | [t] => st.slots.getD (tokNat t) none
         | _ => none
@@ -397,8 +409,10 @@ def processLine (ln : Nat) (line : String) : M Unit := do
         | some q => if q.n == p.n then f q else skip ln "dimension"
         | none => skip ln "unknown-slot"
       if c03 then
+        -- I_x ⊆ latest reading of x, tightest reading of y ⊆ I_y: `contains` true implies tight(y) ⊆ latest(x)
+        let pc := (st.cur.getD (tokNat s) none).getD p
         if qn == "is_empty" then definite p.isEmpty (rest.getD 0 "")
-        else if qn == "contains" then withOther (rest.getD 0 "") fun q => definite (p.contains q) (rest.getD 1 "")
+        else if qn == "contains" then withOther (rest.getD 0 "") fun q => definite (pc.contains q) (rest.getD 1 "")
         else if qn == "disjoint" then withOther (rest.getD 0 "") fun q => definite (p.disjoint q) (rest.getD 1 "")
         else skip ln "c03-not-judged"
       else if qn == "is_empty" then cmpB p.isEmpty (rest.getD 0 "")
